@@ -172,6 +172,14 @@ pub fn v_concat2(a: Vec<u8>, b: Vec<u8>) -> (r: Vec<u8>)
     ensures r@ == a@ + b@,
 { [a, b].concat() }
 
+/// `s == [..]` on byte slices (N6)
+#[verifier::external_body]
+pub fn v_bytes_eq(a: &[u8], b: &[u8]) -> (r: bool)
+    ensures
+        r == (a@ == b@),
+        r <==> (a@.len() == b@.len() && forall|i: int| 0 <= i < a@.len() ==> a@[i] == b@[i]),
+{ a == b }
+
 pub assume_specification<T> [<[T]>::to_vec] (s: &[T]) -> (r: Vec<T>)
     where T: Clone
     ensures r@ == s@;
